@@ -1,5 +1,6 @@
 import NA.Proofs.C09Term
 import NA.Proofs.C09Saved
+import NA.Proofs.C09Compose
 import NA.Proofs.C09Skel
 import NA.Spec.SessDevice
 /-!
@@ -178,6 +179,67 @@ theorem ok_only_if_saved (env : Env) (s : St) (hm : s.mode = .run) :
         saveConfirmed (exec panosCommit env s).tr = true) :=
   ⟨ios_saved_if_completes env s hm, panos_saved_if_commit_returns_nil env s hm⟩
 
+/-! ## the two directions, each as one theorem over the whole run -/
+
+/-- **ok_only_if_all_sent_accepted_and_saved** — one theorem for all five backends, every device
+behaviour and fault schedule (`env.dev` arbitrary), every change script.  If an approve run ends and
+`do-approve` exits 0 / records OK, then
+
+* no reply the code inspects was bad,
+* every command of the script the planner produced is on the wire, in order
+  (`s.plan` is a sublist of the change commands sent; equality up to net/http replays, see
+  `ok_only_if_all_sent`),
+* ASA / IOS / PAN-OS: if there was anything to change, the device confirmed the save
+  (`[OK]`, "no changes to commit", job result OK),
+* Linux (not simulated): the start-up files were copied successfully — routing if routes changed,
+  packet-filter if iptables changed. -/
+theorem ok_only_if_all_sent_accepted_and_saved (b : Backend) (env : Env) (prev : Status) (policy : String) (now : Nat)
+    (hc : env.compare = false) (hsim : b = .linux → env.simulated = false)
+    (hd : (runProg b env).mode ≠ .diverge)
+    (hok : (doApprove false prev policy now (runProg b env).tr (exitCode (runProg b env))).exit = 0) :
+    faulted (badChecked b) (runProg b env).tr = false
+    ∧ (runProg b env).plan.Sublist (changeSends (runProg b env).tr)
+    ∧ ((b = .asa ∨ b = .ios ∨ b = .panos) → (!(runProg b env).plan.isEmpty || (runProg b env).ipt) = true →
+        saveConfirmed (runProg b env).tr = true)
+    ∧ (b = .linux → ((runProg b env).plan.isEmpty = false → scpConfirmed "routing" (runProg b env).tr)
+        ∧ ((runProg b env).ipt = true → scpConfirmed "iptables" (runProg b env).tr)) := by
+  have h0 : exitCode (runProg b env) = 0 := (doApprove_ok_iff _ _ _ _ _ _).mp hok
+  have hret : (runProg b env).mode = .ret := by
+    rcases run_mode_cases b env with h | h | h
+    · exact h
+    · simp [exitCode, h] at h0
+    · exact absurd h hd
+  obtain ⟨hf, hh⟩ := run_ok_facts b env hc hsim hret
+  refine ⟨hf, ?_, ?_, ?_⟩
+  · exact hh.hS (by cases b <;> rfl)
+  · intro hb
+    exact hh.hV (by rcases hb with rfl | rfl | rfl <;> rfl)
+  · intro hb
+    subst hb
+    exact ⟨hh.hR rfl, hh.hT rfl⟩
+
+/-- **fault_stops_and_reports** — the converse as one theorem over an arbitrary fault position: for
+every backend, device and script, if the reply at ANY position of the trace (`pre.length`) is a
+failure the code inspects, then nothing after it is a change command, a save step or a start-up
+file copy, the run exits 1 (if it ends: always, except for the PAN-OS poll loop), `do-approve`
+records FAILED for approve resp. DIFF for compare, writes `END: FAILED` and exits 1. -/
+theorem fault_stops_and_reports (b : Backend) (env : Env) (prev : Status) (policy : String) (now : Nat)
+    (pre post : List Ev) (ρ : Role) (r : Reply)
+    (hsplit : (runProg b env).tr = pre ++ Ev.got ρ r :: post) (hbad : badChecked b ρ r = true)
+    (hd : (runProg b env).mode ≠ .diverge) :
+    (∀ e ∈ post, isChangeOrSave e = false)
+    ∧ exitCode (runProg b env) = 1
+    ∧ (doApprove false prev policy now (runProg b env).tr (exitCode (runProg b env))).status.approve.result = "FAILED"
+    ∧ (doApprove true prev policy now (runProg b env).tr (exitCode (runProg b env))).status.compare.result = "DIFF"
+    ∧ (∀ isCompare, (doApprove isCompare prev policy now (runProg b env).tr (exitCode (runProg b env))).endMsg = "FAILED"
+        ∧ (doApprove isCompare prev policy now (runProg b env).tr (exitCode (runProg b env))).exit = 1) := by
+  have hf : faulted (badChecked b) (runProg b env).tr = true := by
+    rw [hsplit]
+    simp [faulted, isBadGot, hbad]
+  have hst := status_failed_or_diff_partial b env prev policy now hf hd
+  exact ⟨no_change_after_fault_partial b env pre post ρ r hsplit hbad, exit_nonzero_partial b env hf hd,
+    hst.1, hst.2, fun ic => history_end_failed_partial b env ic prev policy now hf hd⟩
+
 /-! ## the property as stated is false of the unchanged code: three classes of counterexamples -/
 
 /-- F-C09a.  IOS, one change command.  The device answers `configure terminal` (sent by
@@ -268,7 +330,29 @@ set_option maxRecDepth 100000 in
 example : (runProg .panos { dev := mkDev .panos { pend := 1000 } none "-", plan := fun _ => [["set a"]], fuel := 7 }).mode
     = .diverge := by decide
 
+/-- Linux with a real (not simulated) scp: routes and iptables change, everything is confirmed -/
+def envLinuxOk : Env :=
+  { dev := mkDev .linux {} none "-", plan := fun _ => [["ip route add 10.3.0.0/16 via 10.1.2.3"]],
+    planIpt := fun _ => true, simulated := false }
+
+set_option maxRecDepth 100000 in
+example : (runProg .linux envLinuxOk).mode = .ret ∧ exitCode (runProg .linux envLinuxOk) = 0
+    ∧ (runProg .linux envLinuxOk).plan = [["ip route add 10.3.0.0/16 via 10.1.2.3"]]
+    ∧ (runProg .linux envLinuxOk).tr.contains (Ev.sent .save ["scp routing"]) = true := by decide
+
+/-- Linux: the copy of the packet-filter file fails (reply 13 is the scp): nothing is activated -/
+def envLinuxScpFails : Env :=
+  { dev := mkDev .linux {} none "scpfail_iptables", plan := fun _ => [["ip route add 10.3.0.0/16 via 10.1.2.3"]],
+    planIpt := fun _ => true, simulated := false }
+
+set_option maxRecDepth 100000 in
+example : faulted (badChecked .linux) (runProg .linux envLinuxScpFails).tr = true
+    ∧ exitCode (runProg .linux envLinuxScpFails) = 1
+    ∧ (runProg .linux envLinuxScpFails).tr.contains (Ev.sent .change ["chmod a+x /etc/network/packet-filter.new"]) = false := by
+  decide
+
 def obligations : List Lean.Name := [
+  ``ok_only_if_all_sent_accepted_and_saved, ``fault_stops_and_reports,
   ``no_change_after_fault_partial, ``no_save_after_fault_partial, ``exit_nonzero_partial,
   ``status_failed_or_diff_partial, ``history_end_failed_partial, ``ok_only_if_all_accepted_partial,
   ``ok_only_if_all_sent, ``ok_only_if_all_sent_panos, ``ok_only_if_saved, ``asa_saved_if_completes,
